@@ -55,6 +55,18 @@ def _worker(idx):
                      "secs": 0, "solver_secs": 0, "assumptions": [], "trusted": []}
 
 
+def _conf_worker(arg):
+    idx, seed, tries = arg
+    oset = _OSETS[idx]
+    try:
+        from pyvc import replay
+        import logging
+        logging.disable(logging.CRITICAL)
+        return idx, replay.conformance(oset.name, seed, tries)
+    except Exception as e:  # noqa: BLE001
+        return idx, {"samples": 0, "compared": 0, "disagreements": [], "skipped": f"conformance harness failed: {type(e).__name__}: {e}"}
+
+
 def fallback_solve(smt2, timeout_s=60):
     """Try the other installed solvers on an obligation z3 5.1 left open. Returns (result, backend)."""
     with tempfile.NamedTemporaryFile("w", suffix=".smt2", delete=False, dir=os.path.join(VERIF, "evidence")) as f:
@@ -146,6 +158,20 @@ def main(argv=None):
         for idx, rj in pool.imap_unordered(_worker, range(len(_OSETS))):
             results[idx] = rj
 
+    # interpreter conformance: the same proof scripts, concrete random inputs, CPython vs pyvc
+    conf_tries = 8 if a.tier == "quick" else 80
+    conf = {"osets": 0, "samples": 0, "compared": 0, "disagreements": []}
+    if REPO not in sys.path:
+        sys.path.insert(0, REPO)
+    with ctx.Pool(min(a.jobs, len(_OSETS))) as pool:
+        for idx, cr in pool.imap_unordered(_conf_worker, [(i, seed, conf_tries) for i in range(len(_OSETS))]):
+            if cr["samples"]:
+                conf["osets"] += 1
+            conf["samples"] += cr["samples"]
+            conf["compared"] += cr["compared"]
+            for d in cr["disagreements"]:
+                conf["disagreements"].append({"oset": _OSETS[idx].name, **d})
+
     # second chance for obligations z3 5.1 left open
     for rj in results:
         for name, ob in rj["obligations"].items():
@@ -214,6 +240,8 @@ def main(argv=None):
                     continue
                 violations.append((rj, name, ob))
 
+    for d in conf["disagreements"][:5]:
+        errors.append((d["oset"], "interpreter conformance: pyvc and CPython disagree on " + json.dumps(d, default=str)[:400]))
     exit_code = 0
     lines = []
     for full, kf in known_hits:
@@ -264,6 +292,9 @@ def main(argv=None):
             "bounded_stand_ins": {"obligations": bounded_total, "discharged": bounded_discharged,
                                   "sets": [{"name": rj["name"], "bound": rj["bounded"]} for rj in results if rj["bounded"]]},
             "known_findings_hit": [full for full, _ in known_hits],
+            "interpreter_conformance": {"obligation_sets_with_native_reading": conf["osets"], "random_inputs": conf["samples"],
+                                        "obligation_values_compared_cpython_vs_pyvc": conf["compared"],
+                                        "disagreements": len(conf["disagreements"])},
             "paths_explored": sum(rj["paths"] for rj in results),
             "source_sha256": dict(sorted(_LOADER.source_sha.items())),
             "samples": samples or [{"obligation": n} for n in current_names[:3]],
